@@ -331,6 +331,42 @@ static void flush_bitpack(carquet_rle_encoder_t* enc) {
     enc->bitpack_total = 0;
 }
 
+/**
+ * Emit the pending run of repeat_count copies of prev_value.
+ *
+ * A bit-packed group always holds 8 values, so a partially filled group must
+ * not be padded in the middle of the stream (the padding would decode as
+ * extra values). It is first completed with values of the run; what is left
+ * of the run becomes an RLE run if it is still long enough, otherwise it is
+ * bit-packed as well.
+ */
+static void emit_pending_run(carquet_rle_encoder_t* enc) {
+    while (enc->bitpack_count > 0 && enc->repeat_count > 0) {
+        enc->bitpack_buffer[enc->bitpack_count++] = enc->prev_value;
+        enc->bitpack_total++;
+        enc->repeat_count--;
+
+        if (enc->bitpack_count == 8) {
+            flush_bitpack(enc);
+        }
+    }
+
+    if (enc->repeat_count >= 8) {
+        flush_rle(enc);
+        return;
+    }
+
+    for (int64_t i = 0; i < enc->repeat_count; i++) {
+        enc->bitpack_buffer[enc->bitpack_count++] = enc->prev_value;
+        enc->bitpack_total++;
+
+        if (enc->bitpack_count == 8) {
+            flush_bitpack(enc);
+        }
+    }
+    enc->repeat_count = 0;
+}
+
 void carquet_rle_encoder_init(
     carquet_rle_encoder_t* enc,
     carquet_buffer_t* buffer,
@@ -363,22 +399,7 @@ carquet_status_t carquet_rle_encoder_put(
     }
 
     /* Value changed */
-    if (enc->repeat_count >= 8) {
-        /* Flush as RLE */
-        flush_bitpack(enc);  /* Flush any pending bit-pack */
-        flush_rle(enc);
-    } else {
-        /* Add to bit-pack buffer */
-        for (int64_t i = 0; i < enc->repeat_count; i++) {
-            enc->bitpack_buffer[enc->bitpack_count++] = enc->prev_value;
-            enc->bitpack_total++;
-
-            if (enc->bitpack_count == 8) {
-                flush_bitpack(enc);
-            }
-        }
-        enc->repeat_count = 0;
-    }
+    emit_pending_run(enc);
 
     enc->prev_value = value;
     enc->repeat_count = 1;
@@ -402,24 +423,11 @@ carquet_status_t carquet_rle_encoder_flush(carquet_rle_encoder_t* enc) {
         return enc->status;
     }
 
-    if (enc->repeat_count >= 8) {
+    emit_pending_run(enc);
+
+    /* Only the very last group of the stream may be padded */
+    if (enc->bitpack_count > 0) {
         flush_bitpack(enc);
-        flush_rle(enc);
-    } else if (enc->repeat_count > 0) {
-        for (int64_t i = 0; i < enc->repeat_count; i++) {
-            enc->bitpack_buffer[enc->bitpack_count++] = enc->prev_value;
-            enc->bitpack_total++;
-
-            if (enc->bitpack_count == 8) {
-                flush_bitpack(enc);
-            }
-        }
-        enc->repeat_count = 0;
-
-        /* Flush remaining bit-pack buffer */
-        if (enc->bitpack_count > 0) {
-            flush_bitpack(enc);
-        }
     }
 
     return enc->status;
